@@ -295,6 +295,34 @@ class T:
                 problems.append(f"with_{plural}_item raised {type(e).__name__}: {e}")
         if problems:
             ctx.violation("singular_collision_fallback", f"child/children + num/nums (lazy={lazy}): {problems}", features={"case": "collision_fallback", "lazy": lazy}, case=["collision", lazy])
+    # collision with an attribute inherited from a parent spec class
+    src3 = HEAD + '''
+@spec_class(bootstrap=True)
+class Base:
+    child: int = 0
+
+class T(Base):
+    children: List[int] = []
+'''
+    for lazy in (False, True):
+        ctx.count("collision_cases")
+        ns = cg.exec_module(src3, prefix="verif_c16d").__dict__
+        try:
+            T = spec_class(bootstrap=not lazy)(ns["T"])
+            T.__spec_class__
+            inst = T()
+            problems = []
+            if not hasattr(T, "with_children_item"):
+                problems.append("no with_children_item fallback: the element helpers of `children` take the names of inherited `child`'s scalar helpers")
+            r = inst.with_child(5)
+            if getattr(r, "child", None) != 5 or r.children != []:
+                problems.append(f"with_child(5) no longer sets the inherited scalar attribute (child={getattr(r, 'child', None)!r}, children={r.children!r})")
+        except RuntimeError:
+            problems = []  # refusing the combination is the documented alternative
+        except Exception as e:
+            problems = [f"{type(e).__name__}: {e}"]
+        if problems:
+            ctx.violation("singular_collision_fallback", f"inherited child + own children (lazy={lazy}): {problems}", features={"case": "collision_inherited", "lazy": lazy}, case=["collision3", lazy])
     src2 = HEAD + '''
 class T:
     child: int = 0
